@@ -433,6 +433,13 @@ func (p *Peer) SendApp(data []byte) error {
 	return p.WriteRecord(ref.RecAppData, data)
 }
 
+// SetWritePad makes the following protected CBC records carry blocks extra blocks of padding.
+func (p *Peer) SetWritePad(blocks int) {
+	if p.wProt != nil {
+		p.wProt.ExtraPad = blocks
+	}
+}
+
 // AddTranscript appends a received message.
 func (p *Peer) AddTranscript(m ref.Msg) { p.Transcript = append(p.Transcript, m.Encode(p.DTLS)...) }
 
